@@ -547,6 +547,48 @@ def unit_mills_recheck():
                        fn="A-Mills", note=str(bad[:5]) if bad else "1/(2-y) <= V(y)+y, V(y) <= -y+4/5 and the fifth-convergent lower bound of V confirmed on 1201 points of [-12, 0]")]
 
 
+def unit_total(fn):
+    """no arithmetic exception for EVERY finite x: the real function with the real phi_major / phi_minor
+    (stdlib NormalDist.pdf extracted from the test interpreter) runs in R-mode with safety obligations at
+    every operation that *raises* (float ** overflow, math.exp above 709, division by zero, sqrt / log
+    domain); x ranges over all finite doubles, t over the models' margins"""
+    from ..symrt import SYM_MATH
+    E = emode
+    ns, path = E.extract_normaldist({"erf": SYM_MATH.erf, "exp": SYM_MATH.exp, "sqrt": SYM_MATH.sqrt, "tau": math.tau, "_SQRT2": math.sqrt(2.0),
+                                     "fabs": SYM_MATH.fabs, "log": SYM_MATH.log, "hypot": SYM_MATH.hypot, "float": float, "isinstance": isinstance})
+    wl = extract.load(extract.WL_COMMON, sym=True)
+    wl["_normal"] = ns["NormalDist"]()
+    ctx = Ctx("R", safety=True, feas_timeout_ms=1000)
+    ctx.safety_raising_only = True
+    npaths = [0]
+    two = fn in ("v", "w", "vt", "wt")
+    big = z3.RealVal("17976931348623157" + "0" * 292)
+
+    def run(ctx):
+        ctx.safety_raising_only = True
+        x = ctx.real("x")
+        ctx.assume(z3.And(x.t <= big, x.t >= -big))
+        args = [x]
+        if two:
+            t = ctx.real("t")
+            ctx.assume(z3.And(t.t >= z3.RealVal(str(T_LO)), t.t <= z3.RealVal(str(T_HI))))
+            args.append(t)
+        out = call(wl[fn], *args)
+        npaths[0] += 1
+        mk = lambda md, _fn=fn: {"kind": "c17_total", "fn": _fn, "x": enc_model(md, "x", KFLOAT), "t": enc_model(md, "t", KFLOAT) if two else None}
+        for o in ctx.obls:
+            o.name = f"C17/{fn}/total/" + o.name
+            o.meta.update({"replay": mk, "fn": fn, "unbounded": True})
+        if out[0] != "return":
+            ctx.oblige(f"C17/{fn}/total/returns", False, meta={"replay": mk, "fn": fn, "unbounded": True})
+    explore(ctx, run, max_paths=64)
+    recs = settle(ctx.all_obls, mode="R", unbounded=True, timeout_ms=10000)
+    if not recs:
+        recs.append(driver.rec(f"C17/{fn}/total/no-raising-operation-on-any-path", "discharged", "explorer", 0, fn=fn, mode="R", unbounded=True,
+                               note=f"{npaths[0]} paths"))
+    return recs
+
+
 def unit_lean(filename):
     """A-Phi and the Mills-ratio bounds, machine-checked against Mathlib (lemmas/Phi.lean)"""
     from .util import lean_check
@@ -559,7 +601,8 @@ def units(tier):
     lean = [("unit_lean", (f,)) for f in ("Phi.lean", "Phi2.lean") if tier == "thorough" and os.path.exists(os.path.join(VERIF, "lemmas", f))]
     return lean + [("unit_tab", ()), ("unit_v", ()), ("unit_w", ()), ("unit_vt", ()), ("unit_wt", ()), ("unit_contract_v_vt", ()),
                    ("unit_emode", ("phi_major",)), ("unit_emode", ("phi_minor",)),
-                   ("unit_emode_vw", ("v",)), ("unit_emode_vw", ("w",)), ("unit_mills_recheck", ())]
+                   ("unit_emode_vw", ("v",)), ("unit_emode_vw", ("w",)), ("unit_mills_recheck", ())] + \
+        [("unit_total", (f,)) for f in ("phi_major", "phi_minor", "v", "w", "vt", "wt")]
 
 
 def main(tier, seed):
